@@ -7,7 +7,7 @@ from .. import lib as vlib
 from ..engines import rootchain
 from ..gen import keys as gkeys
 from ..monitors import boundary
-from ..refs import models
+from ..refs import canonjson, ed25519, models
 
 RULE = (
     "simulated client + reference model run in lock-step over histories of offers generated relative to the evolving trusted root: "
@@ -25,7 +25,8 @@ ASSUMPTIONS = ["reference root rule (vf/refs/models.py), reference signer"]
 CLASSES = ["honest", "honest", "honest", "honest_junk", "replay_current", "rollback", "skip", "revoked", "self_appointed",
            "insufficient_old", "insufficient_new", "type_confused", "malformed", "corrupted_sigs", "wrong_payload_sigs",
            "replayed_signatures", "replayed_signatures", "draft_threshold_above_keys", "draft_threshold_above_keys",
-           "superset_takeover", "superset_takeover", "same_keys_lower_threshold_by_outsider"]
+           "superset_takeover", "superset_takeover", "same_keys_lower_threshold_by_outsider", "raw_shaped_entries_under_root_keys",
+           "raw_shaped_entries_under_root_keys", "decoy_root_role"]
 
 
 def plan(tier, seed):
@@ -113,6 +114,24 @@ def gen_offer(cls, trusted, accepted_log, rng):
         good["signed"]["delegations"]["root"]["pubkeys"] = [k.hex for k in att] + good["signed"]["delegations"]["root"]["pubkeys"]
         good["signed"]["delegations"]["root"]["threshold"] = 1
         return good, True
+    if cls == "raw_shaped_entries_under_root_keys":
+        # self-appointed key signs properly (OpenPGP); under the CURRENT root keys' names sit raw-shaped entries (any hex): root
+        # chaining only ever counts OpenPGP-wrapped signatures
+        att = outsiders[:1] or [gkeys.key(27)]
+        off = rootchain.signed_root(v + 1, att, 1, att, rng)
+        data = canonjson.canon(off["signed"])
+        for k in K:
+            off["signatures"][k.hex] = rng.choice([{"signature": "%0128x" % rng.getrandbits(512)},
+                                                   {"signature": ed25519.sign(gkeys.key(28).seed, data).hex()}])
+        return off, True
+    if cls == "decoy_root_role":
+        att = outsiders[:1] or [gkeys.key(29)]
+        off = rootchain.signed_root(v + 1, K2, t2, [], rng, extra=None)
+        off["signed"]["delegations"][rng.choice(["root.json", "Root", "root ", ""])] = {"pubkeys": [a.hex for a in att], "threshold": 1}
+        data = canonjson.canon(off["signed"])
+        for a in att:
+            off["signatures"][a.hex] = rootchain.gpg_entry(a, data, rng)
+        return off, True
     if cls == "superset_takeover":
         # keeps every current root key, ADDS attacker keys, equal-or-higher threshold, signed by the added keys only
         att = (outsiders[:max(1, min(len(outsiders), t if t <= 3 else 3))]) or [gkeys.key(25)]
